@@ -72,12 +72,28 @@ def clientDefects (rq : Request) (f : File) : List String :=
     (if dupIn ((s.headers ++ s.methods.flatMap (·.headers)).map headerNameToFuncName) then ["header_helper_redeclared"] else []) ++
     (s.methods.flatMap fun m =>
       let input := (rq.findMessage m.input).getD default
-      let vars := if m.hasConfig then extractPathParams m.path else []
       let v := if m.hasConfig then verbOfNum m.verbNum else "POST".toList
-      -- `req.<snakeToUpperCamel(var)>` vs the Go field name protoc-gen-go derives
-      (if vars.any (fun p => snakeToUpperCamel p != goCamelCase p) then ["client_path_field_identifier"] else []) ++
+      -- a path variable is read through the bound field's own name / getter since /repo 9cb4f02
+      -- (`clientPathAccessor`); before, `req.<snakeToUpperCamel(var)>` (`clientIdentDefectsBeforeFix`)
       -- `req.F != <zero literal>` per query field, for GET/DELETE
       (if isQueryVerb v && input.fields.any (fun fl => fl.query.isSome && !(queryKindCompiles fl)) then ["client_query_field_kind"] else [])))
+
+/-- the Go expression the emitted client reads a path variable from (`clientgen.pathParamAccessor`):
+the field's protoc-gen-go name, through the getter when the field is proto3 `optional` (a pointer). -/
+def clientPathAccessor (input : Message) (p : Str) : Str :=
+  match input.fields.find? (fun f => f.name == p) with
+  | some f => if f.card == .optional then "req.Get".toList ++ goCamelCase f.name ++ "()".toList else "req.".toList ++ goCamelCase f.name
+  | none => "req.".toList ++ snakeToUpperCamel p
+
+/-- before /repo 9cb4f02: `fmt.Sprint(req.<snakeToUpperCamel(var)>)`. -/
+def clientPathAccessorBeforeFix (p : Str) : Str := "req.".toList ++ snakeToUpperCamel p
+
+/-- regression witness for the repaired finding `go:client_path_field_identifier`: the RPCs whose
+path variables the old derivation spelled differently from protoc-gen-go. -/
+def clientIdentDefectsBeforeFix (rq : Request) : List String :=
+  (generated rq).flatMap fun f => f.services.flatMap fun s => s.methods.flatMap fun m =>
+    let vars := if m.hasConfig then extractPathParams m.path else []
+    if vars.any (fun p => snakeToUpperCamel p != goCamelCase p) then ["client_path_field_identifier"] else []
 
 def goDefects (rq : Request) (subset : String) : List String :=
   (generated rq).flatMap fun f =>
